@@ -386,6 +386,35 @@ func (fx *FnCtx) instr(in ssa.Instruction) {
 	}
 }
 
+// siteOrdinal: position of this call among the calls of the same contracted callee in the function, in source order
+func (fx *FnCtx) siteOrdinal(c *ssa.CallCommon, key string) int {
+	var ps []token.Pos
+	for _, b := range fx.fn.Blocks {
+		for _, in := range b.Instrs {
+			var cc *ssa.CallCommon
+			switch x := in.(type) {
+			case *ssa.Call:
+				cc = &x.Call
+			case *ssa.Defer:
+				cc = &x.Call
+			}
+			if cc == nil {
+				continue
+			}
+			if fc2, _, _ := fx.calleeContract(cc); fc2 != nil && fc2.Key == key {
+				ps = append(ps, cc.Pos())
+			}
+		}
+	}
+	sort.Slice(ps, func(i, j int) bool { return ps[i] < ps[j] })
+	for i, p := range ps {
+		if p == c.Pos() {
+			return i
+		}
+	}
+	return -1
+}
+
 // blockReaches: some path leads from a to b
 func blockReaches(a, b *ssa.BasicBlock) bool {
 	seen := map[*ssa.BasicBlock]bool{}
@@ -1151,7 +1180,7 @@ func (fx *FnCtx) call(v *ssa.Call, c *ssa.CallCommon) {
 	// extra call-site requirements declared by the caller's contract
 	csOrd := 0
 	for _, cs := range fx.fc.Calls {
-		if cs.Callee == fc.Key {
+		if cs.Callee == fc.Key && (cs.Nth < 0 || cs.Nth == fx.siteOrdinal(c, fc.Key)) {
 			lbl := cs.Req.Name
 			if lbl == "" {
 				lbl = fmt.Sprintf("c%d", csOrd)
